@@ -145,7 +145,7 @@ func (state *RuntimeState) certGenHandler(w http.ResponseWriter, r *http.Request
 			return
 		}
 		metricLogCertDuration("unparsed", "requested", float64(newDuration.Seconds()))
-		if newDuration > duration {
+		if newDuration > duration || newDuration <= 0 {
 			logger.Println(err)
 			state.writeFailureResponse(w, r, http.StatusBadRequest, "Error parsing form (invalid duration)")
 			return
